@@ -153,27 +153,38 @@ Fixpoint level (hosts : list nat) (useAll : bool) (ilLen N nodes L : nat)
       end
   end.
 
-(* the  for totalNodes < nodes  loop, on explicit fuel *)
+(* the  for totalNodes < nodes  loop, on explicit fuel; also returns the sizes of the
+   levels created (most recent first) *)
 Fixpoint levels (fuel : nat) (hosts : list nat) (useAll : bool) (ilLen N nodes : nat)
-         (lvl : list (nat * nat)) (st : bst) : option bst :=
-  if nodes <=? total st then Some st else
+         (lvl : list (nat * nat)) (st : bst) (sizes : list nat) : option (bst * list nat) :=
+  if nodes <=? total st then Some (st, sizes) else
   match fuel with
   | 0 => None
   | S f =>
       match level hosts useAll ilLen N nodes (length lvl) lvl 0 st [] with
       | None => None
-      | Some (st', newlvl) => levels f hosts useAll ilLen N nodes newlvl st'
+      | Some (st', newlvl) => levels f hosts useAll ilLen N nodes newlvl st' (length newlvl :: sizes)
       end
   end.
 
-Definition gen_big (hosts : list nat) (N nodes : nat) : gres :=
+Definition gen_big_full (hosts : list nat) (N nodes : nat) : option (bst * list nat) :=
   let ilLen := length hosts in
-  if ilLen =? 0 then GCrash else
+  if ilLen =? 0 then None else
   let st0 := {| used := true :: repeat false (ilLen - 1);
                 roIndex := 1 mod ilLen; total := 1; bacc := [(0, 0)] |} in
-  match levels (S nodes) hosts (ilLen =? nodes) ilLen N nodes [(0, 0)] st0 with
+  levels (S nodes) hosts (ilLen =? nodes) ilLen N nodes [(0, 0)] st0 [1].
+
+Definition gen_big (hosts : list nat) (N nodes : nat) : gres :=
+  match gen_big_full hosts N nodes with
   | None => GCrash
-  | Some st => GTree (rev (bacc st))
+  | Some (st, _) => GTree (rev (bacc st))
+  end.
+
+(* sizes of the levels, root level first *)
+Definition gen_big_sizes (hosts : list nat) (N nodes : nat) : option (list nat) :=
+  match gen_big_full hosts N nodes with
+  | None => None
+  | Some (_, sizes) => Some (rev sizes)
   end.
 
 (* ---------- verified well-formedness checker (run on the Go result) ------- *)
